@@ -182,9 +182,8 @@ func c15Prop(rt *rapid.T, rec *ev.Recorder) {
 				trace = append(trace, fmt.Sprintf("ext(leaf%d)", l.Idx))
 			}
 		case "tick":
-			if finalized == 0 {
-				continue // block 0 is never a valid target for the store
-			}
+			// ticks while the finalized block is still genesis are part of the domain: block 0 is never a valid target for
+			// the store, so such a tick must not inject anything (no leaf is at or below a finalized block yet)
 			tickFault = info.fail > 0 || sender.failIs > 0 || sender.failInj > 0 || failHeader > 0
 			before := len(sender.injected)
 			wasOnL2 := map[common.Hash]bool{}
